@@ -1,0 +1,25 @@
+//go:build verif
+
+// Package verifhook holds the crash points used by the verification harness in /verif.
+// With the "verif" build tag, Point kills the process (SIGKILL: no deferred code, no flushing)
+// when the environment variable VERIF_CRASH_AT names this point as "<name>:<n>".
+package verifhook
+
+import (
+	"fmt"
+	"os"
+	"syscall"
+)
+
+var crashAt = os.Getenv("VERIF_CRASH_AT")
+
+// Point marks a place where the harness may stop the process.
+func Point(name string, n int) {
+	if crashAt == "" {
+		return
+	}
+	if crashAt == fmt.Sprintf("%s:%d", name, n) {
+		_ = syscall.Kill(os.Getpid(), syscall.SIGKILL)
+		select {} // never continue past a crash point
+	}
+}
